@@ -187,8 +187,10 @@ pub fn build(repo: &Path, root: &Path, with_big: bool) -> Tree {
         ),
         (
             "syn_iface",
-            "schema { query: Q }\nenum Color { RED GREEN }\ninterface Named { name: String }\ntype A implements Named { name: String, a: Int }\ntype B implements Named { name: String, b: Color }\ntype Q { c: Color, n: Named }\n",
-            "query E { c n { __typename name ... on A { a } ... on B { b } } }\n",
+            "schema { query: Q }\nenum Color { RED GREEN }\ninterface Named { name: String }\ntype A implements Named { name: String, a: Int }\ntype B implements Named { name: String, b: Color }\ntype Q { c: Color, n: Named, pick(x: Color, y: Color): Color }\n",
+            // ties and duplicates on purpose: two variables of one type, an enum reached by two
+            // paths, a fragment spread twice, the same field under two aliases
+            "query E($x: Color, $y: Color) { c c2: c pick(x: $x, y: $y) n { __typename ...NameF ... on A { a } ... on B { b } } m: n { ...NameF ...NameF } }\nfragment NameF on Named { __typename name }\n",
         ),
     ];
     // a chain of further inputs makes per-schema analyses (anything computed lazily from the whole
@@ -214,7 +216,7 @@ pub fn build(repo: &Path, root: &Path, with_big: bool) -> Tree {
                 fixtures.push(Fixture { dir: name.to_string(), file: file.into(), is_schema: false, ops: operation_names(text), big: false, deepbad: false });
             }
         }
-        let sibling = if name == "syn_rec" { query.replace("query Op(", "query Oq(") } else { query.replace("query E {", "query F {") };
+        let sibling = if name == "syn_rec" { query.replace("query Op(", "query Oq(") } else { query.replace("query E(", "query F(") };
         assert_eq!(sibling.len(), query.len());
         fs::write(d.join("query_b.graphql"), &sibling).unwrap();
         fixtures.push(Fixture { dir: name.to_string(), file: "query_b.graphql".into(), is_schema: false, ops: operation_names(&sibling), big: false, deepbad: false });
